@@ -420,34 +420,84 @@ theorem no_small_gap_when_separated (thr τ : Rat) (hthr : 0 ≤ thr) (pm : Mode
   refine ⟨?_, no_smallGap_of_validG thr hthr instrs 0 hv⟩
   simp only [closedChannelT, closedChannel, pureLoopT_eq_of_validG thr hthr instrs 0 hv]
 
-/-- **`compile` as read from the source, end to end**: zero-duration instructions dropped (if the source says so), schedule,
-group by pulse label — channel `l` gets exactly the pulses labelled `l`, in scheduled order, each with its instruction's
-start time; labels distinct; channels non-empty — then `_concatenate_pulses` as read from the source. -/
-theorem compile_source_channels (instrs0 : List Instr) (sch : Option (List Rat × List Nat))
+/-- **`Instruction.__init__` as read from the source** (decided on the regenerated description): a sampled time sequence is
+refused when `abs(tlist[0]) > 1e-8`, and the duration of an accepted one is `tlist[-1]` — also when `tlist[0]` is not 0 (the
+time sequence is measured from the start of the instruction; `tlist[-1] - tlist[0]` would place the next instruction before
+this one's last grid point). -/
+theorem source_instruction_shape :
+    Gen.concatSrc.instr.Standard ∧ Gen.concatSrc.instr.t0Tol = 1/100000000 := by decide +kernel
+
+/-- **Durations**: every instruction the gate compilers construct is stored with `duration` = its scalar `tlist`, or the last
+entry of its (stored) time sequence. -/
+theorem instruction_duration_is_last_time (instrs0 : List Instr) (ids : List (Instr × Rat))
+    (h : initAll Gen.concatSrc.instr instrs0 = some ids) : ∀ id ∈ ids, id.2 = id.1.duration :=
+  initAll_durations _ source_instruction_shape.1 instrs0 ids h
+
+/-- **With fixes/C12-6.patch (`shift`) the stored time sequence starts at exactly 0**, is as long as and strictly increasing
+like the one handed in, and carries the same pulses — the clause "sampled tlist starts at 0" of `WaveOK` holds for every
+accepted instruction, whatever `tlist[0]` within the accepted window was. -/
+theorem shifted_instruction_starts_at_zero (s : InstrSrc) (hs : s.shift = true) (i i' : Instr) (d : Rat) (tl : List Rat)
+    (htl : i.tl = .arr tl) (hne : tl ≠ []) (h : s.init i = some (i', d)) :
+    ∃ tl', i'.tl = .arr tl' ∧ tl'.head? = some 0 ∧ tl'.length = tl.length ∧
+      (tl.Pairwise (· < ·) → tl'.Pairwise (· < ·)) ∧ i'.pulses = i.pulses :=
+  init_shift_head s hs i i' d tl htl hne h
+
+/-- **Without the shift a first entry that is not 0 counts as 0**: `_process_gate_pulse` takes the points `tlist[1:]`, the
+coefficients and the kind exactly as for the sequence with its first entry replaced by 0; only `step_size = tlist[1] - tlist[0]`
+sees it.  (So `[-1e-9, 0, 1]`, accepted by `Instruction`, is laid out as `[0, 0, 1]`: `first_entry_counterexample`.) -/
+theorem first_grid_time_counts_as_zero (a b : Rat) (rest cs : List Rat) (p : Proc)
+    (h : procPulse (.arr (0 :: b :: rest) cs) = .ok p) :
+    procPulse (.arr (a :: b :: rest) cs) = .ok { p with step := b - a } :=
+  procPulse_head_ignored a b rest cs p h
+
+/-- **An accepted, strictly increasing time sequence that the code without the shift cannot lay out**: `tlist = [-10⁻⁹, 0, 1]`
+(`|tlist[0]| ≤ 10⁻⁸`) gives the grid `[0, 0, 1]`; with the shift (fixes/C12-6.patch) the stored sequence is `[0, 10⁻⁹, 1 + 10⁻⁹]`
+and the grid is strictly increasing. -/
+theorem first_entry_counterexample :
+    let i : Instr := ⟨.arr [-1/1000000000, 0, 1], [(0, .arr [1, 2])]⟩
+    let noShift : Src := { Gen.concatSrc with instr := { Gen.concatSrc.instr with shift := false } }
+    let shift : Src := { Gen.concatSrc with instr := { Gen.concatSrc.instr with shift := true } }
+    (match compileS noShift [i] none with | some (.ok (some outs)) => outs | _ => []) = [(0, some ([0, 0, 1], [1, 2]))] ∧
+    (match compileS shift [i] none with | some (.ok (some outs)) => outs | _ => [])
+      = [(0, some ([0, 1/1000000000, 1 + 1/1000000000], [1, 2]))] := by
+  decide +kernel
+
+/-- **`compile` as read from the source, end to end**: the instructions are constructed (`Instruction.__init__`: refusal of a
+first entry beyond the window, shift if the source has it, duration), zero-duration instructions dropped (if the source says
+so), scheduled, grouped by pulse label — channel `l` gets exactly the pulses labelled `l`, in scheduled order, each with its
+instruction's start time; labels distinct; channels non-empty — then `_concatenate_pulses` as read from the source. -/
+theorem compile_source_channels (instrs0 : List Instr) (sch : Option (List Rat × List Nat)) (ids : List (Instr × Rat))
     (is : List Instr) (starts : List Rat) (groups : List (Nat × List (Rat × Wave)))
-    (hne : keptInstrs Gen.concatSrc.cat.dropZero instrs0 ≠ [])
-    (hs : schedule (keptInstrs Gen.concatSrc.cat.dropZero instrs0) sch = .ok (is, starts))
+    (hinit : initAll Gen.concatSrc.instr instrs0 = some ids)
+    (hne : keptInstrs Gen.concatSrc.cat.dropZero (ids.map (·.1)) ≠ [])
+    (hs : schedule (keptInstrs Gen.concatSrc.cat.dropZero (ids.map (·.1))) sch = .ok (is, starts))
     (hg : groupPulses (is.zip starts) [] = some groups) :
     (groups.map (·.1)).Nodup ∧ (∀ g ∈ groups, g.2 ≠ [] ∧ g.2 = chanOf g.1 (is.zip starts)) ∧
     compileS Gen.concatSrc instrs0 sch =
       (match concatenateS Gen.concatSrc (groups.map (·.2)) with
        | .error e => some (.error e)
-       | .ok outs => some (.ok (some ((groups.map (·.1)).zip outs)))) :=
-  compileWith_channels _ _ instrs0 sch is starts groups hne hs hg
+       | .ok outs => some (.ok (some ((groups.map (·.1)).zip outs)))) := by
+  have hd := instruction_duration_is_last_time instrs0 ids hinit
+  have := compileWith_channels Gen.concatSrc.cat.dropZero (concatenateS Gen.concatSrc) (ids.map (·.1)) sch is starts groups hne hs hg
+  refine ⟨this.1, this.2.1, ?_⟩
+  simp only [compileS, hinit]
+  rw [compileD_eq _ _ ids hd sch]
+  exact this.2.2
 
 /-- **`compile` end to end on every schedule**: if the channels that the grouping produces are rounded chains (`ChainR` at the
 source's `time_tol`), `compile` returns, label by label, the closed form of that label's channel — to which
 `closed_channel_every_schedule` and `discrete_channel_outside_small_gaps` apply. -/
-theorem compile_source_end_to_end (instrs0 : List Instr) (sch : Option (List Rat × List Nat))
+theorem compile_source_end_to_end (instrs0 : List Instr) (sch : Option (List Rat × List Nat)) (ids : List (Instr × Rat))
     (is : List Instr) (starts : List Rat) (groups : List (Nat × List (Rat × Wave)))
-    (hne : keptInstrs Gen.concatSrc.cat.dropZero instrs0 ≠ [])
-    (hs : schedule (keptInstrs Gen.concatSrc.cat.dropZero instrs0) sch = .ok (is, starts))
+    (hinit : initAll Gen.concatSrc.instr instrs0 = some ids)
+    (hne : keptInstrs Gen.concatSrc.cat.dropZero (ids.map (·.1)) ≠ [])
+    (hs : schedule (keptInstrs Gen.concatSrc.cat.dropZero (ids.map (·.1))) sch = .ok (is, starts))
     (hg : groupPulses (is.zip starts) [] = some groups) (hgn : groups ≠ [])
     (hch : ∀ g ∈ groups, ChainR (Gen.concatSrc.timeTol (groups.map (·.2))) 0 g.2) :
     ∃ (pm : Mode) (final ms : Rat), 0 < ms ∧ (∀ g ∈ groups, endOf 0 g.2 ≤ final) ∧
       compileS Gen.concatSrc instrs0 sch = some (.ok (some ((groups.map (·.1)).zip ((groups.map (·.2)).map fun ch =>
         some (closedChannelT (Gen.concatSrc.timeTol (groups.map (·.2))) Gen.concatSrc.cat.padTol pm final ms ch))))) := by
-  obtain ⟨_, hgs, hcomp⟩ := compile_source_channels instrs0 sch is starts groups hne hs hg
+  obtain ⟨_, hgs, hcomp⟩ := compile_source_channels instrs0 sch ids is starts groups hinit hne hs hg
   obtain ⟨pm, final, ms, hms, hends, hcat⟩ := compiled_source_all_schedules (groups.map (·.2)) (by simpa using hgn)
     (by
       intro ch hc
@@ -455,6 +505,38 @@ theorem compile_source_end_to_end (instrs0 : List Instr) (sch : Option (List Rat
       exact ⟨(hgs g hgm).1, hch g hgm⟩)
   refine ⟨pm, final, ms, hms, fun g hgm => hends g.2 (List.mem_map.mpr ⟨g, hgm, rfl⟩), ?_⟩
   rw [hcomp, hcat]
+
+/-- `compile_source_channels` for gate compilers that emit rectangular pulses only (scalar `tlist`): the instructions are
+stored as handed in. -/
+theorem compile_source_channels_scalar (instrs0 : List Instr) (sch : Option (List Rat × List Nat))
+    (is : List Instr) (starts : List Rat) (groups : List (Nat × List (Rat × Wave)))
+    (hsc : ∀ i ∈ instrs0, ∃ t, i.tl = .scalar t)
+    (hne : keptInstrs Gen.concatSrc.cat.dropZero instrs0 ≠ [])
+    (hs : schedule (keptInstrs Gen.concatSrc.cat.dropZero instrs0) sch = .ok (is, starts))
+    (hg : groupPulses (is.zip starts) [] = some groups) :
+    (groups.map (·.1)).Nodup ∧ (∀ g ∈ groups, g.2 ≠ [] ∧ g.2 = chanOf g.1 (is.zip starts)) ∧
+    compileS Gen.concatSrc instrs0 sch =
+      (match concatenateS Gen.concatSrc (groups.map (·.2)) with
+       | .error e => some (.error e)
+       | .ok outs => some (.ok (some ((groups.map (·.1)).zip outs)))) := by
+  have hinit := initAll_scalar Gen.concatSrc.instr instrs0 hsc
+  have hmap := map_fst_withDuration instrs0
+  exact compile_source_channels instrs0 sch _ is starts groups hinit (by rw [hmap]; exact hne) (by rw [hmap]; exact hs) hg
+
+/-- `compile_source_end_to_end` for gate compilers that emit rectangular pulses only. -/
+theorem compile_source_end_to_end_scalar (instrs0 : List Instr) (sch : Option (List Rat × List Nat))
+    (is : List Instr) (starts : List Rat) (groups : List (Nat × List (Rat × Wave)))
+    (hsc : ∀ i ∈ instrs0, ∃ t, i.tl = .scalar t)
+    (hne : keptInstrs Gen.concatSrc.cat.dropZero instrs0 ≠ [])
+    (hs : schedule (keptInstrs Gen.concatSrc.cat.dropZero instrs0) sch = .ok (is, starts))
+    (hg : groupPulses (is.zip starts) [] = some groups) (hgn : groups ≠ [])
+    (hch : ∀ g ∈ groups, ChainR (Gen.concatSrc.timeTol (groups.map (·.2))) 0 g.2) :
+    ∃ (pm : Mode) (final ms : Rat), 0 < ms ∧ (∀ g ∈ groups, endOf 0 g.2 ≤ final) ∧
+      compileS Gen.concatSrc instrs0 sch = some (.ok (some ((groups.map (·.1)).zip ((groups.map (·.2)).map fun ch =>
+        some (closedChannelT (Gen.concatSrc.timeTol (groups.map (·.2))) Gen.concatSrc.cat.padTol pm final ms ch))))) := by
+  have hinit := initAll_scalar Gen.concatSrc.instr instrs0 hsc
+  have hmap := map_fst_withDuration instrs0
+  exact compile_source_end_to_end instrs0 sch _ is starts groups hinit (by rw [hmap]; exact hne) (by rw [hmap]; exact hs) hg hgn hch
 
 -- non-vacuity: three rectangular pulses on two labels through the source-driven model; a zero-duration instruction is dropped
 example :
